@@ -31,8 +31,8 @@ MANIFEST_ENTRY = {
             "only problems the module names (regenerated table). Undeclared types (P0022) and duplicate type names (P0020): the "
             "late-bound type-initializer transformation is modelled on the type facts of the library and proved to accept exactly "
             "when every referenced type is elementary, a standard function block or declared, and to report ALL undeclared "
-            "references (compared with the transformation run alone: new initializer kinds or diagnostics). NOT proved: the other "
-            "transformations (alias resolution of data types, expression kinds) and the whole-pipeline claim (parse, sort, resolve, all rules together), which is "
+            "references (compared with the transformation run alone: new initializer kinds or diagnostics). The alias resolution of data types is modelled step by step and proved sound for every library and exact (resolved to kind k iff a path of alias declarations leads to a declaration of kind k) for libraries as the declaration sort leaves them (the hypothesis is checked on every sorted stream); the resolution of bare identifiers in expressions is modelled as the stateful fold it is and proved to be the resolution of every unit by itself; both models are compared with the transformations run alone and with tables regenerated from their sources. NOT proved: "
+            "the whole-pipeline claim (parse, sort, resolve, all rules together), which is "
             "decided by planting each documented fault at every site of generated valid programs (both directions: valid units "
             "must be accepted with no code, each single fault must be rejected with its code).",
     "note": "Trusted: Coq kernel, translator (stage lists, shape of semantic()/resolve_types()), extraction + driver, harness op "
